@@ -13,6 +13,7 @@ package pilosa_test
 // of TopN ties, Min/Max counts) are additionally compared pairwise.
 
 import (
+	"sync/atomic"
 	"context"
 	"fmt"
 	"sort"
@@ -466,7 +467,17 @@ func TestVerifC28(t *testing.T) {
 	})
 
 	n := r.N(250, 10000)
+	esrvInstallHook()
 	r.Cases("paths", n, func(i int, id string, rng *vk.Rand) {
+		// half of the cases run with a tiny MaxOpN, so that imports take the rewrite-and-snapshot
+		// branch (value imports: len*(bitDepth+1)+opN >= MaxOpN) and snapshots happen inside the history
+		if rng.Bool() {
+			atomic.StoreUint64(&esrvMaxOpN, uint64(3+rng.Intn(40)))
+			r.Cover("config:low-maxopn")
+		} else {
+			atomic.StoreUint64(&esrvMaxOpN, 0)
+		}
+		defer atomic.StoreUint64(&esrvMaxOpN, 0)
 		typ := []string{"set", "set", "mutex", "bool", "time", "time", "int", "int"}[rng.Intn(8)]
 		track := rng.Bool()
 		m := newMIndex(track)
